@@ -12,7 +12,7 @@ from __future__ import annotations
 import ast
 from .. import astutil as U
 from .. import cfg as C
-from ..formula import single_defs, inline, factors, slice_key
+from ..formula import push_slices, single_defs, inline, factors, slice_key
 from ..source import AnalysisError, AnchorMissing
 
 PB = 'kawin/precipitation/PopulationBalance.py'
@@ -202,7 +202,7 @@ def r72(repo, ctx, func, F):
         if S not in (LEFT, RIGHT):
             ctx.violation('R7.2', PB, fq, st, f'face fluxes written to slice {S}: only left faces [:-1] and right faces [1:] of the un-shifted cells are admissible', construct=U.src(st))
             continue
-        num, den, sign = factors(inline(st.value, defs))
+        num, den, sign = factors(push_slices(inline(st.value, defs)))
         got = {'flux': None, 'psd': 0, 'mask': None, 'other': []}
         for f_ in num:
             b, sl = _sub(f_)
